@@ -175,6 +175,20 @@ func (f *Farm) Log(prefix string) []Entry {
 	return out
 }
 
+// LogNow returns the matching entries as they are, without waiting for handlers (for failure paths: a handler may be
+// stuck writing to a connection the crawler has stopped reading).
+func (f *Farm) LogNow(prefix string) []Entry {
+	f.mu.Lock()
+	defer f.mu.Unlock()
+	var out []Entry
+	for _, e := range f.log {
+		if strings.HasPrefix(e.Target, prefix) {
+			out = append(out, *e)
+		}
+	}
+	return out
+}
+
 // Close stops the servers and closes every connection still open.
 func (f *Farm) Close() {
 	for _, s := range f.srv {
